@@ -277,6 +277,25 @@ theorem C16_rebuild_from_era (cal : CalId) (hne : cal ≠ .iso8601) (iso : IsoDa
   · simp [byEra, he, hy]
   · simp [resolveCode, byEra, hv]
 
+/-- **C16 (updating a date with its own fields is the identity)**: `with` merges the given fields into the receiver's
+    own — its calendar year, its month code, its day — and rebuilds; given any subset of the receiver's own year,
+    month code and day (here: the day, the least `with` accepts) the merged record is the receiver's (year, month
+    code, day) and the result is the receiver, for every modelled non-ISO calendar and every date in range
+    (`japanese`: from 1 CE, see C16_japanese_nonpositive_year). -/
+theorem C16_with_own_fields_identity (cal : CalId) (hne : cal ≠ .iso8601) (iso : IsoDate) (hr : InRange iso)
+    (hj : cal = .japanese → 1 ≤ iso.year) (f : CalFields) (hf : fields cal iso = some f) (ov : Option Overflow) :
+    mergeFieldsCal f ⟨none, none, none, none, none, some f.day⟩ = byCode f ∧
+    mergeFieldsCal f ⟨none, none, some f.year, none, some f.monthCode, none⟩ =
+      ⟨none, none, some f.year, some (f.monthCode.num : Int), some f.monthCode, some f.day⟩ ∧
+    plainDateWithCal cal f ⟨none, none, none, none, none, some f.day⟩ ov = .ok iso := by
+  have h := C16_rebuild_from_year_code cal hne iso hr hj f hf ov
+  refine ⟨rfl, rfl, ?_⟩
+  unfold plainDateWithCal
+  have : mergeFieldsCal f ⟨none, none, none, none, none, some f.day⟩ = byCode f := rfl
+  rw [this]
+  unfold plainDateFromPartialCal at h
+  simpa [byCode, CalPartial.isEmpty] using h
+
 /-- The exception, as a fact about the code: a `japanese` date of year 0 reports year 0, and the library refuses a
     non-positive year given without an era, so the year route fails (the era route works, by the theorem above). -/
 theorem C16_japanese_nonpositive_year :
@@ -407,3 +426,4 @@ end TemporalModel
 #print axioms TemporalModel.Cal.C16_identifier_lower_idem
 #print axioms TemporalModel.Cal.C16_identifier_canonical
 #print axioms TemporalModel.Cal.C16_identifier_roundtrip
+#print axioms TemporalModel.Cal.C16_with_own_fields_identity
